@@ -2,6 +2,7 @@
 package c13
 
 import (
+	"sync/atomic"
 	"bytes"
 	"encoding/binary"
 	"errors"
@@ -1328,6 +1329,153 @@ func asyncVictim(res *core.Result, r *rand.Rand, nFrames int) {
 	res.Count("async_answers_to_victim_requests", int64(answered))
 }
 
+// stallConn is a TCP connection whose reader can be frozen: the far end of a link that stops reading (a hung or
+// overloaded neighbour), so that the victim's writer for that link blocks and its send queue fills up.
+type stallConn struct {
+	net.Conn
+	stalled atomic.Bool
+	closed  atomic.Bool
+}
+
+func (c *stallConn) Read(b []byte) (int, error) {
+	for c.stalled.Load() && !c.closed.Load() {
+		time.Sleep(5 * time.Millisecond)
+	}
+	return c.Conn.Read(b)
+}
+
+func (c *stallConn) Close() error {
+	c.closed.Store(true)
+	return c.Conn.Close()
+}
+
+// congestedNeighbour: a real router instance has two peers: the malicious one and a neighbour that stops reading
+// from its connection. The malicious peer sends far more transit frames for that neighbour (both priority
+// classes) than the victim's link queue holds. Whatever the victim does with the frames it cannot send - nothing
+// may panic its workers, and it must keep answering.
+func congestedNeighbour(res *core.Result, r *rand.Rand, nFrames int) {
+	idV, idM, idS := env.NewIdentity(r, nil), env.NewIdentity(r, nil), env.NewIdentity(r, nil)
+	port := freePort()
+	if port == 0 {
+		res.Inconcl("no free port")
+		return
+	}
+	cfg, err := config.Store{
+		Router: config.Router{Address: idV.Store(), Listen: []string{fmt.Sprintf("tcp://127.0.0.1:%d", port)}},
+		System: config.System{DisableTun: true},
+	}.Parse()
+	if err != nil {
+		res.Inconcl("config: %v", err)
+		return
+	}
+	victim, err := mycoria.New("v0.0.0-verif", cfg)
+	if err != nil {
+		res.Inconcl("victim: %v", err)
+		return
+	}
+	var ams []*mgr.AlertMgr
+	for _, mm := range []*mgr.Manager{victim.Router().Manager(), victim.Switch().Manager(), victim.Peering().Manager(), victim.State().Manager()} {
+		ams = append(ams, mgr.NewAlertMgr(mm))
+	}
+	panics := func() []string {
+		var out []string
+		for _, am := range ams {
+			u := am.Export()
+			for _, al := range u.Alerts {
+				if strings.HasPrefix(al.ID, "worker-panic") {
+					out = append(out, u.Module+": "+al.ID+": "+al.Message)
+				}
+			}
+		}
+		return out
+	}
+	if err := victim.Start(); err != nil {
+		res.Inconcl("victim start: %v", err)
+		return
+	}
+	defer victim.Stop()
+	mal := wire.NewRouter(idM, config.Router{})
+	mal.Inst.PeeringV.AddProtocol("tcp", peering.ProtocolTCP)
+	var link peering.Link
+	for try := 0; try < 200; try++ {
+		link, err = mal.Inst.PeeringV.PeerWith(&m.PeeringURL{Protocol: "tcp", Domain: "127.0.0.1", Port: uint16(port)}, netip.Addr{})
+		if err == nil {
+			break
+		}
+		time.Sleep(25 * time.Millisecond)
+	}
+	if err != nil || link == nil {
+		res.Inconcl("malicious peer could not connect: %v", err)
+		return
+	}
+	defer link.Close(nil)
+	// the neighbour: a real link setup over a TCP connection whose reader the harness can freeze
+	nb := wire.NewRouter(idS, config.Router{})
+	raw, err := net.Dial("tcp", fmt.Sprintf("127.0.0.1:%d", port))
+	if err != nil {
+		res.Inconcl("neighbour dial: %v", err)
+		return
+	}
+	sc := &stallConn{Conn: raw}
+	defer sc.Close()
+	nbLink, err := nb.Inst.PeeringV.VerifSetupLink(sc, &m.PeeringURL{Protocol: "tcp", Domain: "127.0.0.1", Port: uint16(port)}, true)
+	if err != nil || nbLink == nil {
+		res.Inconcl("neighbour link setup: %v", err)
+		return
+	}
+	defer nbLink.Close(nil)
+	deadline := time.Now().Add(10 * time.Second)
+	for victim.Peering().GetLink(idS.IP) == nil && time.Now().Before(deadline) {
+		time.Sleep(2 * time.Millisecond)
+	}
+	if victim.Peering().GetLink(idS.IP) == nil {
+		res.Inconcl("victim did not register the neighbour")
+		return
+	}
+	sc.stalled.Store(true)
+	// transit frames for the neighbour: correct frames of both classes that the victim only has to pass on
+	sent := 0
+	for i := 0; i < nFrames; i++ {
+		mt := frame.NetworkTraffic
+		if i%4 == 3 {
+			mt = frame.RouterCtrl
+		}
+		f, err := mal.Inst.BuilderV.NewFrameV1(idM.IP, idS.IP, mt, nil, core.RandBytes(r, 1300), nil)
+		if err != nil {
+			continue
+		}
+		d, _ := f.FrameDataWithMargins(0, 0)
+		buf := make([]byte, 12+len(d)+16)
+		copy(buf[12:], d)
+		f.ReturnToPool()
+		if i%4 == 3 {
+			_ = link.SendPriority(&rawFrame{data: buf})
+		} else {
+			_ = link.Send(&rawFrame{data: buf})
+		}
+		sent++
+		if i%500 == 499 {
+			time.Sleep(2 * time.Millisecond)
+			if p := panics(); len(p) > 0 {
+				res.Violate("worker-panic:congested-next-hop", fmt.Sprintf("a worker of a real router instance panicked after %d transit frames for a neighbour that had stopped reading: %s", sent, p[0]), map[string]any{"alerts": p, "frames_sent": sent, "case_id": "congested-neighbour"})
+				return
+			}
+		}
+	}
+	time.Sleep(100 * time.Millisecond)
+	if p := panics(); len(p) > 0 {
+		res.Violate("worker-panic:congested-next-hop", fmt.Sprintf("a worker of a real router instance panicked after %d transit frames for a neighbour that had stopped reading: %s", sent, p[0]), map[string]any{"alerts": p, "frames_sent": sent, "case_id": "congested-neighbour"})
+		return
+	}
+	if stuck := stuckWorkers(); len(stuck) > 0 {
+		res.Violate("worker-stalled:congested-next-hop", fmt.Sprintf("after %d transit frames for a neighbour that had stopped reading, a frame-handling worker of the real router stays in the same non-idle stack for 1.5s: %s", sent, stuck[0]), map[string]any{"stuck": stuck, "case_id": "congested-neighbour"})
+		return
+	}
+	res.Count("congested_neighbour_transit_frames", int64(sent))
+	res.Count("congested_neighbour_runs", 1)
+	res.Case("congested-neighbour", true)
+}
+
 // ---------- (c) post-handshake garbage on a wire link (real reader)
 
 func postHandshakeGarbage(res *core.Result, r *rand.Rand, n int) {
@@ -1391,7 +1539,8 @@ func stuckWorkers() []string {
 					isWorker = wf
 				}
 			}
-			if isWorker == "" {
+			if isWorker == "" || strings.Contains(g, "c13.(*stallConn).Read") {
+				// (the frozen reader of the congested-neighbour scenario is the harness's own doing)
 				continue
 			}
 			// idle: the innermost non-runtime function is the worker loop itself, or the reader waits for network input
@@ -1531,8 +1680,12 @@ func run(c *core.Ctx) {
 			handshakeSteps(res, r, c.Q(520, 10000))
 		default:
 			postHandshakeGarbage(res, r, c.Q(60, 1500))
+			for i := 0; i < c.Q(1, 6); i++ {
+				congestedNeighbour(res, r, c.Q(14000, 30000))
+			}
 		}
 	})
+	res.Require(res.Counter("congested_neighbour_runs") >= 1 || res.ViolationCount() > 0, "the congested-neighbour scenario did not run")
 	res.Sample(map[string]any{"operator": "announce-depth-50+layer-tiny-inner", "desc": "announcement signed by an authenticated peer whose hop-record chain contains a 1..63-byte inner attachment"})
 	res.Sample(map[string]any{"operator": "ping-hdr-hash+hdrlen-past-end", "desc": "ping whose header names an unknown hash algorithm and whose header length points past the message"})
 	res.Sample(map[string]any{"operator": "raw-switch-zero-free+src-is-victim", "desc": "frame with a full switch block without terminator that claims the victim's own address as source"})
